@@ -33,7 +33,7 @@ RULE = ('one case = one seeded cache content (6-30 tiles on levels 0-3 stored at
         'second, plus foreign objects: a second cache, lock files, stray files) (or, deep variant, tiles around the bundle borders of levels 8/9 of a ten-level pyramid) x one cleanup task (level list / range / open or '
         'zero-ended range / levels beyond the grid, remove_all / remove_before as absolute time, relative age or file mtime / '
         'default, full extent or coverage: bbox in the grid SRS or EPSG:4326, edge-hugging bbox, polygon, two boxes) on one '
-        'backend+layout in a seeded fixed-offset local time zone, readdir order permuted, optionally after another cleanup task of the same run, optionally with every directory older than its tiles (restored backup), optionally with removals that take seconds (stalled backend); non-trivial = the task had to remove at least one tile and keep at '
+        'backend+layout in a seeded local time zone (fixed offsets, one with daylight-saving time), tiles optionally stored again later, the cleanup clock optionally behind the newest tiles, readdir order permuted, optionally after another cleanup task of the same run, optionally with every directory older than its tiles (restored backup), optionally with removals that take seconds (stalled backend); non-trivial = the task had to remove at least one tile and keep at '
         'least one tile of the same cache; distinct = distinct (backend, contents, task) hash')
 COMPONENTS = {
     'real': ['mapproxy.seed.cleanup (cleanup, simple_cleanup, cache_cleanup, tilewalker_cleanup)', 'mapproxy.util.fs.cleanup_directory',
@@ -125,7 +125,9 @@ def gen(t, tier):
     sc['cache_refresh'] = t.pick([None, None, None, {'seconds': 1}, {'hours': 5}, {'weeks': 100}]) if has_ts else None
     sc['k'] = t.choice(max(1, len(sc['tiles'])))     # the threshold is placed around the store time of tile k
     sc['delta'] = t.pick([-1, 0, 0, 1, 2, 100])
-    sc['after'] = t.pick([0.0, 0.5, 3.0, 7200.0])     # time between the last store and the cleanup
+    # time between the last store and the cleanup; negative: the cleanup runs on a machine whose clock is behind the one that
+    # wrote the tiles (or the clock was set back) - the newest tiles are "from the future"
+    sc['after'] = t.pick([0.0, 0.5, 3.0, 7200.0, 7200.0, -2.0, -7200.0])
     if t.chance(0.55):
         # bbox coverage as fractions of the grid extent (aligned, slightly off, and clearly unaligned corners)
         fx, fy = t.choice(8) / 8.0 + t.pick([0, 0.00005, -0.00005, 3 / 64.0, 1 / 32.0]), \
